@@ -77,7 +77,35 @@ class Env:
     def disambiguate(s, callee, cands): return cands
     def pick_drop_impl(s, M, v, impls): return impls
 
+    _num_re = re.compile(r'^core::num::<impl (u8|u16|u32|u64|u128|usize|i8|i16|i32|i64|i128|isize)>::(\w+)$')
+
+    def num_method(s, M, st, ty, meth, a):
+        signed = ty.startswith('i'); w = 64 if ty.endswith('size') else int(ty[1:])
+        x = a[0]; y = a[1] if len(a) > 1 else None
+        def ite(c, p, q):
+            if isinstance(c, bool): return p if c else q
+            return simp(z3.If(c, z(p), z(q)))
+        if meth == 'saturating_sub' and not signed: return ite(binop('Lt', x, y), I(0, w), binop('Sub', x, y))
+        if meth == 'saturating_add' and not signed:
+            r = binop('AddWithOverflow', x, y); return ite(r[2], I((1 << w) - 1, w), r[1])
+        if meth in ('wrapping_add', 'wrapping_sub', 'wrapping_mul'): return binop({'wrapping_add': 'Add', 'wrapping_sub': 'Sub', 'wrapping_mul': 'Mul'}[meth], x, y)
+        if meth in ('checked_add', 'checked_sub', 'checked_mul'):
+            r = binop({'checked_add': 'AddWithOverflow', 'checked_sub': 'SubWithOverflow', 'checked_mul': 'MulWithOverflow'}[meth], x, y, signed)
+            return ('fork', r[2], NONE, some(r[1]))
+        if meth in ('min', 'max'):
+            c = binop('Le', x, y, signed); return ite(c, x, y) if meth == 'min' else ite(c, y, x)
+        if meth == 'abs_diff': return ite(binop('Lt', x, y, signed), binop('Sub', y, x), binop('Sub', x, y))
+        if meth == 'is_power_of_two' or meth == 'pow' or meth == 'leading_zeros': raise Unmodelled('integer method ' + meth)
+        return None
+
     def call(s, M, st, th, callee, args):
+        m = s._num_re.match(callee)
+        if m:
+            r = s.num_method(M, st, m.group(1), m.group(2), args)
+            if r is None: raise Unmodelled('integer method ' + callee)
+            if isinstance(r, tuple) and r[0] == 'fork':
+                return [('ret', st2, r[2] if c else r[3]) for st2, c in M.fork_on(st, r[1])]
+            return s.ret(st, r)
         ci = callee_info(callee)
         if ci['kind'] == 'trait':
             f = s.trait_models.get((ci['trait_head'], ci['method']))
@@ -618,6 +646,20 @@ class Env:
         x = it[i.v]; last = it.pop()
         if i.v < len(it): it[i.v] = last
         M.write(st, a[0], Agg(v.ty, it)); return s.ret(st, x)
+
+    def p_VecDeque__swap_remove_back(s, M, st, th, ci, a):
+        v = s._seq(M, st, a[0]); it = v.items(); i = a[1]
+        if not isinstance(i, I): raise Unmodelled('symbolic index in swap_remove_back')
+        if i.v >= len(it): return s.ret(st, NONE)
+        it[i.v], it[-1] = it[-1], it[i.v]; x = it.pop()
+        M.write(st, a[0], Agg(v.ty, it)); return s.ret(st, some(x))
+
+    def p_VecDeque__swap_remove_front(s, M, st, th, ci, a):
+        v = s._seq(M, st, a[0]); it = v.items(); i = a[1]
+        if not isinstance(i, I): raise Unmodelled('symbolic index in swap_remove_front')
+        if i.v >= len(it): return s.ret(st, NONE)
+        it[i.v], it[0] = it[0], it[i.v]; x = it.pop(0)
+        M.write(st, a[0], Agg(v.ty, it)); return s.ret(st, some(x))
 
     def p_VecDeque__drain(s, M, st, th, ci, a):
         v = s._seq(M, st, a[0]); M.write(st, a[0], Agg(v.ty)); return s.ret(st, Agg('Drain', [Agg('Vec', v.items())]))
